@@ -262,7 +262,7 @@ def run(ctx):
                      "L=2..3 (4 for s%s); tiny VQE runs (s, d, sd; real and complex-phase initial state). "
                      "non-trivial = state with a non-zero imaginary part, or a cluster/qUCC case with >= 2 non-zero parameters, or a VQE run; "
                      "distinct by the full input" % (nmax, 5 if ctx.thorough else 4, 4 if ctx.thorough else 3, " and d" if ctx.thorough else ""))
-    ctx.lib(["VQE/VqeCheck", "VQE/VqeProofs"])
+    ctx.lib(["VQE/VqeCheck", "VQE/VqeProofs", "VQE/VqeReal"])
     ok_tr = ctx.translate("GenVqe", gen.generate)
     if ok_tr:
         ctx.props()
@@ -406,14 +406,14 @@ def run(ctx):
     #  complex initial states go through oracle_landscape below)
     runs = [(2, 1, "s", 0.0), (3, 1, "s", 0.0), (3, 2, "s", 0.0), (2, 1, "sd", 0.0), (3, 2, "d", 0.0)]
     if ctx.thorough:
-        runs += [(4, 2, "s", 0.0), (4, 1, "s", 0.0), (3, 1, "sd", 0.0), (3, 2, "sd", 0.0), (4, 2, "d", 0.0), (2, 2, "d", 0.0),
+        runs += [(4, 2, "s", 0.0), (4, 1, "s", 0.0), (3, 1, "sd", 0.0), (3, 2, "sd", 0.0), (2, 2, "d", 0.0),
                  (4, 3, "s", 0.0), (2, 0, "s", 0.0), (3, 3, "sd", 0.0)]
     nvqe = 0
     for L, nocc, exc, phase in runs:
         x0 = [rng.uniform(0, 1) for _ in range(sum(L ** len(k) for k in KINDS[exc]))]
         ctx.count("vqe_%s_L=%d" % (exc, L))
         try:
-            emin, lo, nev = oracle_vqe(ctx, L, nocc, x0, exc, maxiter=(200 if ctx.thorough else 120), phase=phase)
+            emin, lo, nev = oracle_vqe(ctx, L, nocc, x0, exc, maxiter=(120 if exc != "s" else (200 if ctx.thorough else 120)), phase=phase)
             ctx.evaluations += 1
             ctx.nontriv({"kind": "vqe", "L": L, "nocc": nocc, "exc": exc, "phase": phase, "evaluations": nev})
             if nvqe < 2:
